@@ -88,6 +88,9 @@ class Tracer:
                 tr._op("open", os.fspath(file), mode)
                 f = WFile(tr._open(file, mode, *a, **kw), os.fspath(file))
                 tr._files.append(f)
+                # a second fault point once the file is open: with 'w' an existing file is empty from here on
+                # (bulk copies - shutil.copyfile's sendfile - write no data through Python at all)
+                tr._op("opened", os.fspath(file))
                 return f
             return tr._open(file, mode, *a, **kw)
 
